@@ -68,7 +68,14 @@ func (l *DeadlineLimiter) tryAcquire(ctx context.Context) (listener core.Listene
 		// - A timeout
 		// - The context is cancelled
 		l.logger.Debugf("Blocking waiting for release or timeout ctx=%v", ctx)
-		if shouldAcquire := blockUntilSignaled(ctx, l.c, timeout); shouldAcquire {
+		// subscribe to releases first and then try once more, see BlockingLimiter.tryAcquire
+		ready := subscribe(l.c)
+		listener, ok = l.delegate.Acquire(ctx)
+		if ok && listener != nil {
+			l.logger.Debugf("delegate returned a listener ctx=%v", ctx)
+			return listener, true
+		}
+		if shouldAcquire := waitReady(ctx, ready, timeout); shouldAcquire {
 			listener, ok := l.delegate.Acquire(ctx)
 			if ok && listener != nil {
 				l.logger.Debugf("delegate returned a listener ctx=%v", ctx)
